@@ -109,6 +109,8 @@ func (c03) Generate(seed uint64, tier string, index int) any {
 		}
 		if g.R.Intn(8) == 0 {
 			f = C03Fault{Kind: "mutate", Pick: g.R.Intn(1 << 20), StepFrac: 1 + g.R.Intn(999)}
+		} else if g.R.Intn(8) == 0 {
+			f = C03Fault{Kind: "shrink", Pick: g.R.Intn(1 << 20), StepFrac: 1 + g.R.Intn(600)}
 		}
 		sc.Faults = append(sc.Faults, f)
 	}
@@ -213,6 +215,7 @@ func (c03) Run(t *testing.T, scenario any, job *Job, res *Result) {
 		hooks := SessionHooks{}
 		desc := ""
 		mutated := map[string]string{} // name → content hash after the external write
+		shrunk := map[string][]byte{}  // name → source content before an external truncation
 		switch f.Kind {
 		case "flip":
 			raw := f.RawOff
@@ -279,6 +282,42 @@ func (c03) Run(t *testing.T, scenario any, job *Job, res *Result) {
 				return nil
 			}
 			desc = fmt.Sprintf("external writer modifies basis %q at step %d of ~%d", victim, at, baseSteps)
+		case "shrink":
+			// an external process truncates a SOURCE file while the session runs
+			// (after it was listed with its old size, at best): whatever the
+			// sender still reads and describes is what may be installed
+			var srcs []string
+			for _, e := range sc.Sync.Src.Entries {
+				if e.Type == "f" && e.Content != nil && e.Content.Size > 300 {
+					srcs = append(srcs, string(e.Path))
+				}
+			}
+			if len(srcs) == 0 {
+				continue
+			}
+			victim := srcs[f.Pick%len(srcs)]
+			at := baseSteps * f.StepFrac / 1000
+			done := false
+			vpath := filepath.Join(lay.Src, victim)
+			hooks.OnStep = func(step int) error {
+				if done || step < at {
+					return nil
+				}
+				done = true
+				b, err := os.ReadFile(vpath)
+				if err != nil || len(b) < 3 {
+					return nil
+				}
+				shrunk[victim] = b
+				b = b[:len(b)/3]
+				if err := os.Truncate(vpath, int64(len(b))); err != nil {
+					return nil
+				}
+				mutated[victim] = fstree.HashBytes(b)
+				res.Fault("source_truncated", 1)
+				return nil
+			}
+			desc = fmt.Sprintf("external writer truncates source %q to a third at step %d of ~%d", victim, at, baseSteps)
 		default:
 			continue
 		}
@@ -311,6 +350,14 @@ func (c03) Run(t *testing.T, scenario any, job *Job, res *Result) {
 			isNew := ok && a.Type == "f" && a.Sum == sn.Sum && a.Size == sn.Size
 			isOld := (!ok && !had) || (ok && had && a.Type == b.Type && a.Sum == b.Sum && a.Size == b.Size)
 			isMut := ok && mutated[name] != "" && a.Sum == mutated[name]
+			if orig := shrunk[name]; !isMut && ok && orig != nil && a.Type == "f" {
+				// the sender may have read more than the truncated third before the
+				// truncation hit: any prefix of the old content it read and
+				// described is a legitimate result
+				if got, err := os.ReadFile(filepath.Join(root, name)); err == nil && len(got) >= len(orig)/3 && len(got) <= len(orig) && bytes.Equal(got, orig[:len(got)]) {
+					isMut = true
+				}
+			}
 			if !isNew && !isOld && !isMut {
 				fail("corrupt-file-installed", "corrupt-installed", fmt.Sprintf("destination %q now holds %s/%d: neither its previous content (%s) nor the sender's (%s/%d)", name, a.Sum, a.Size, describe(b, had), sn.Sum, sn.Size))
 				return
@@ -319,7 +366,7 @@ func (c03) Run(t *testing.T, scenario any, job *Job, res *Result) {
 			if had {
 				bp = &b
 			}
-			if success && model.NeedsTransfer(sn, bp, o) && !isNew {
+			if success && model.NeedsTransfer(sn, bp, o) && !isNew && !isMut {
 				fail("damage-reported-as-success", "silent-stale", fmt.Sprintf("session reported success but %q was not updated to the sender's content", name))
 				return
 			}
